@@ -37,6 +37,10 @@ TEMPLATES = [
     'match subject_value:\n    case SomeClass(attribute={L}) | [{L}, *rest_items]:\n        result_value = ({L}, {L}, {L})\n',
     'class SomeClass:\n    __slots__: tuple = ({L}, {L})\n    attribute_one = {L}\n    attribute_two = {L}\n',
     'class SomeClass:\n    __slots__ = ()\n    __slots__ += ({L}, {L})\n    attribute_one = {L}\n    attribute_two = {L}\n',
+    # __slots__ assigned inside a block of the class body is still the class's __slots__
+    'class SomeClass:\n    if some_condition:\n        __slots__ = ({L}, {L})\n    else:\n        __slots__ = ({L}, {L}, "extra")\n    def method_one(self):\n        return {L}, {L}\n',
+    'class SomeClass:\n    try:\n        __slots__ = [{L}, {L}, {L}]\n    except NameError:\n        __slots__: tuple = ({L},)\n    finally:\n        other_value = {L}\n',
+    'def outer_function():\n    class SomeClass:\n        with some_context:\n            for loop_item in ():\n                pass\n            else:\n                __slots__ = {L}, {L}, {L}, {L}\n    return SomeClass, {L}\n',
     # names spelled like the aliases the hoister hands out already exist where the literal is used
     'class SettingsClass:\n    _A = 8080\n    host_value = {L}\n    fallback_value = {L}\n    other_value = ({L}, {L}, _A)\n',
     'def function_one():\n    _A = 1\n    A = 2\n    return {L}, {L}, {L}, {L}, _A, A\n',
